@@ -19,7 +19,20 @@ use quill::tree::NodeInfo;
 
 pub struct Ns;
 
-pub fn js(s: &str) -> JavaString { JavaString::from(s.to_owned()) }
+/// Abstract text -> JavaString.  JSON (and TLA+) strings cannot hold an unpaired surrogate, a Java string can: a character of
+/// U+E000..U+E7FF (private use) of the abstract text stands for the unpaired surrogate U+D800 + (c - U+E000); `js_out` is the inverse.
+pub fn js(s: &str) -> JavaString {
+	if !s.chars().any(|c| ('\u{e000}'..='\u{e7ff}').contains(&c)) { return JavaString::from(s.to_owned()); }
+	let mut out = JavaString::new();
+	for c in s.chars() {
+		if ('\u{e000}'..='\u{e7ff}').contains(&c) { out.push_java(java_string::JavaCodePoint::from_u32(0xD800 + (c as u32 - 0xE000)).expect("surrogate")); } else { out.push(c); }
+	}
+	out
+}
+/// JavaString -> abstract text, exact (Display would turn every unpaired surrogate into U+FFFD).
+pub fn js_out(s: &java_string::JavaStr) -> String {
+	s.chars().map(|cp| cp.as_char().unwrap_or_else(|| char::from_u32(0xE000 + (cp.as_u32() - 0xD800)).expect("private use"))).collect()
+}
 
 fn doc_to_json(d: &Option<JavadocMapping>) -> Value {
 	match d { None => json!([]), Some(j) => json!([j.0]) }
@@ -29,9 +42,9 @@ fn doc_from_json(v: &Value) -> Result<Option<JavadocMapping>> {
 	Ok(match a.len() { 0 => None, 1 => Some(JavadocMapping(a[0].as_str().context("doc text")?.to_owned())), _ => bail!("doc too long") })
 }
 
-fn names_to_json<const N: usize, T: std::fmt::Display>(n: &Names<N, T>) -> Value {
+fn names_to_json<const N: usize, T: AsRef<java_string::JavaStr>>(n: &Names<N, T>) -> Value {
 	let arr: &[Option<T>; N] = n.into();
-	Value::Array(arr.iter().map(|x| match x { None => json!(""), Some(x) => json!(x.to_string()) }).collect())
+	Value::Array(arr.iter().map(|x| match x { None => json!(""), Some(x) => json!(js_out(x.as_ref())) }).collect())
 }
 fn names_from_json<const N: usize, T>(v: &Value) -> Result<Names<N, T>>
 where T: TryFrom<JavaString, Error = anyhow::Error> + std::fmt::Debug + AsRef<java_string::JavaStr> {
